@@ -17,9 +17,43 @@ pub mod k256 {
         #[verifier::external_body]
         #[derive(Clone, Copy, Debug, PartialEq, Eq)]
         pub struct VerifyingKey { _p: () }
-        pub struct Signature { pub _p: () }
+        #[verifier::external_body]
+        pub struct Signature { _p: () }
         pub struct Error { pub _p: () }
         pub struct FieldBytes { pub v: Vec<u8> }
+        /// k256: `Signature::try_from(bytes)` accepts exactly 64-byte r||s with r, s in [1, n-1]
+        pub uninterp spec fn sig_parse(b: Seq<u8>) -> Option<Signature>;
+        pub uninterp spec fn sig_bytes(s: &Signature) -> Seq<u8>;
+        /// k256: ECDSA verification of `sig` over keccak256(msg) under `vk` (k256 rejects high-S signatures)
+        pub uninterp spec fn lib_verify(vk: &VerifyingKey, msg: Seq<u8>, sig: &Signature) -> bool;
+        pub uninterp spec fn sig_is_high_s(s: &Signature) -> bool;
+        pub uninterp spec fn sig_low_twin(s: &Signature) -> Signature;
+        impl Signature {
+            /// stand-in for `<Signature as TryFrom<&[u8]>>::try_from`
+            #[verifier::external_body]
+            pub fn try_from(b: &[u8]) -> (r: Result<Self, Error>)
+                ensures
+                    r is Ok <==> sig_parse(b@) is Some,
+                    r matches Ok(s) ==> sig_parse(b@) == Some(s),
+            { unimplemented!() }
+            #[verifier::external_body]
+            pub fn from_slice(b: &[u8]) -> (r: Result<Self, Error>)
+                ensures
+                    r is Ok <==> sig_parse(b@) is Some,
+                    r matches Ok(s) ==> sig_parse(b@) == Some(s),
+            { unimplemented!() }
+            #[verifier::external_body]
+            pub fn to_vec(&self) -> (r: Vec<u8>)
+                ensures r@ == sig_bytes(self), r@.len() == 64, sig_parse(r@) == Some(*self),
+            { unimplemented!() }
+            /// k256: Some(low-S twin) for a high-S signature, None otherwise
+            #[verifier::external_body]
+            pub fn normalize_s(&self) -> (r: Option<Self>)
+                ensures
+                    r is Some <==> sig_is_high_s(self),
+                    r matches Some(t) ==> t == sig_low_twin(self),
+            { unimplemented!() }
+        }
         /// k256: 32-byte big-endian scalar in [1, n-1]
         pub uninterp spec fn secret_valid(b: Seq<u8>) -> bool;
         pub uninterp spec fn secret_of(k: &SigningKey) -> Seq<u8>;
@@ -29,16 +63,29 @@ pub mod k256 {
         /// the verifying key of a signing key
         pub uninterp spec fn sk_public(k: &SigningKey) -> VerifyingKey;
         /// 33-byte compressed SEC1 form / 64-byte x||y form of a verifying key
-        pub uninterp spec fn vk_compressed(k: &VerifyingKey) -> Seq<u8>;
+        pub open spec fn vk_compressed(k: &VerifyingKey) -> Seq<u8> { crate::standin::k256::cp_ref(&crate::standin::k256::cp_of(k))@ }
         pub uninterp spec fn vk_xy(k: &VerifyingKey) -> Seq<u8>;
-        /// keccak256 + ECDSA verification of a 64-byte r||s low-S signature
-        pub uninterp spec fn vk_verify_v4(k: &VerifyingKey, msg: Seq<u8>, sig: Seq<u8>) -> bool;
+        /// v4 verification as EIP-778 states it: the signature field parses as a 64-byte r||s signature and verifies
+        /// (low-S, over keccak256 of the message) under the key
+        pub open spec fn vk_verify_v4(k: &VerifyingKey, msg: Seq<u8>, sig: Seq<u8>) -> bool {
+            sig_parse(sig) matches Some(s) && lib_verify(k, msg, &s)
+        }
         /// k256: the compressed encoding of a key is 33 bytes and decodes back to the same key
         #[verifier::external_body]
         pub proof fn axiom_vk_roundtrip(k: VerifyingKey)
             ensures vk_compressed(&k).len() == 33, sec1_valid(vk_compressed(&k)), sec1_key(vk_compressed(&k)) == k,
         {}
         impl SigningKey {
+            #[verifier::external_body]
+            pub fn verifying_key(&self) -> (r: &VerifyingKey)
+                ensures *r == sk_public(self),
+            { unimplemented!() }
+            /// stand-in for `RandomizedDigestSigner::try_sign_digest_with_rng`: may fail; a returned signature verifies
+            /// under the signer's public key over the digested message (LIBRARY LAW, assumed)
+            #[verifier::external_body]
+            pub fn try_sign_digest_with_rng(&self, rng: &mut crate::standin::rand::rngs::OsRng, digest: crate::standin::sha3::Keccak256) -> (r: Result<Signature, Error>)
+                ensures r matches Ok(s) ==> lib_verify(&sk_public(self), digest.data@, &s),
+            { unimplemented!() }
             #[verifier::external_body]
             pub fn from_slice(b: &[u8]) -> (r: Result<Self, Error>)
                 ensures
@@ -57,6 +104,11 @@ pub mod k256 {
             { unimplemented!() }
         }
         impl VerifyingKey {
+            /// stand-in for `DigestVerifier::verify_digest`
+            #[verifier::external_body]
+            pub fn verify_digest(&self, digest: crate::standin::sha3::Keccak256, sig: &Signature) -> (r: Result<(), Error>)
+                ensures r is Ok <==> lib_verify(self, digest.data@, sig),
+            { unimplemented!() }
             #[verifier::external_body]
             pub fn from_sec1_bytes(b: &[u8]) -> (r: Result<Self, Error>)
                 ensures
@@ -86,6 +138,17 @@ pub mod k256 {
     impl AsRefSpecImpl<[u8]> for CompressedPoint {
         open spec fn aref(&self) -> &[u8] { cp_ref(self) }
     }
+    impl From<&ecdsa::VerifyingKey> for CompressedPoint {
+        #[verifier::external_body]
+        fn from(k: &ecdsa::VerifyingKey) -> (r: CompressedPoint)
+        { unimplemented!() }
+    }
+    /// the compressed SEC1 point of a verifying key (`CompressedPoint::from(&key)`)
+    pub uninterp spec fn cp_of(k: &ecdsa::VerifyingKey) -> CompressedPoint;
+    impl vstd::std_specs::convert::FromSpecImpl<&ecdsa::VerifyingKey> for CompressedPoint {
+        open spec fn obeys_from_spec() -> bool { true }
+        open spec fn from_spec(k: &ecdsa::VerifyingKey) -> Self { cp_of(k) }
+    }
     impl CompressedPoint {
         #[verifier::external_body]
         pub fn to_vec(&self) -> (r: Vec<u8>)
@@ -104,10 +167,26 @@ pub mod ed25519_dalek {
     #[verifier::external_body]
     #[derive(Clone, Copy, Debug, PartialEq, Eq)]
     pub struct VerifyingKey { _p: () }
-    pub struct Signature { pub _p: () }
+    #[verifier::external_body]
+    pub struct Signature { _p: () }
     pub struct SignatureError { pub _p: () }
     pub trait Signer {}
     pub trait Verifier {}
+    /// ed25519-dalek: `Signature::try_from(bytes)` accepts exactly 64 bytes
+    pub uninterp spec fn sig_parse(b: Seq<u8>) -> Option<Signature>;
+    pub uninterp spec fn lib_verify(vk: &VerifyingKey, msg: Seq<u8>, sig: &Signature) -> bool;
+    impl Signature {
+        #[verifier::external_body]
+        pub fn try_from(b: &[u8]) -> (r: Result<Self, SignatureError>)
+            ensures
+                r is Ok <==> sig_parse(b@) is Some,
+                r matches Ok(s) ==> sig_parse(b@) == Some(s),
+        { unimplemented!() }
+        #[verifier::external_body]
+        pub fn to_bytes(&self) -> (r: [u8; 64])
+            ensures sig_parse(r@) == Some(*self),
+        { unimplemented!() }
+    }
     /// ed25519-dalek: any 32-byte string is a secret key; other lengths are refused
     pub open spec fn secret_valid(b: Seq<u8>) -> bool { b.len() == 32 }
     pub uninterp spec fn secret_of(k: &SigningKey) -> Seq<u8>;
@@ -115,13 +194,25 @@ pub mod ed25519_dalek {
     pub uninterp spec fn pk_of(b: Seq<u8>) -> VerifyingKey;
     pub uninterp spec fn sk_public(k: &SigningKey) -> VerifyingKey;
     pub uninterp spec fn vk_bytes(k: &VerifyingKey) -> Seq<u8>;
-    pub uninterp spec fn vk_verify_v4(k: &VerifyingKey, msg: Seq<u8>, sig: Seq<u8>) -> bool;
+    /// Ed25519 verification of a 64-byte signature over the raw message
+    pub open spec fn vk_verify_v4(k: &VerifyingKey, msg: Seq<u8>, sig: Seq<u8>) -> bool {
+        sig_parse(sig) matches Some(s) && lib_verify(k, msg, &s)
+    }
     /// ed25519-dalek: a public key is 32 bytes and decodes back to the same key
     #[verifier::external_body]
     pub proof fn axiom_vk_roundtrip(k: VerifyingKey)
         ensures vk_bytes(&k).len() == 32, pk_valid(vk_bytes(&k)), pk_of(vk_bytes(&k)) == k,
     {}
     impl SigningKey {
+        #[verifier::external_body]
+        pub fn verifying_key(&self) -> (r: VerifyingKey)
+            ensures r == sk_public(self),
+        { unimplemented!() }
+        /// stand-in for `Signer::sign`: the signature verifies under the signer's public key (LIBRARY LAW, assumed)
+        #[verifier::external_body]
+        pub fn sign(&self, msg: &[u8]) -> (r: Signature)
+            ensures lib_verify(&sk_public(self), msg@, &r),
+        { unimplemented!() }
         /// stand-in for `<SigningKey as TryFrom<&[u8]>>::try_from`
         #[verifier::external_body]
         pub fn try_from(b: &[u8]) -> (r: Result<Self, SignatureError>)
@@ -135,6 +226,15 @@ pub mod ed25519_dalek {
         { unimplemented!() }
     }
     impl VerifyingKey {
+        /// stand-in for `Verifier::verify`
+        #[verifier::external_body]
+        pub fn verify(&self, msg: &[u8], sig: &Signature) -> (r: Result<(), SignatureError>)
+            ensures r is Ok <==> lib_verify(self, msg@, sig),
+        { unimplemented!() }
+        #[verifier::external_body]
+        pub fn to_bytes(&self) -> (r: [u8; 32])
+            ensures r@ == vk_bytes(self),
+        { unimplemented!() }
         #[verifier::external_body]
         pub fn try_from(b: &[u8]) -> (r: Result<Self, SignatureError>)
             ensures
@@ -212,15 +312,26 @@ pub mod sha3 {
     use vstd::prelude::*;
     /// keccak256 as a total function on byte strings
     pub uninterp spec fn keccak(b: Seq<u8>) -> Seq<u8>;
-    pub struct Keccak256 { pub _p: () }
+    /// hasher state: `data` = everything fed so far
+    pub struct Keccak256 { pub data: Vec<u8> }
     pub struct Output { pub v: Vec<u8> }
-    pub trait Digest {
+    pub trait Digest: Sized {
         fn digest(b: &[u8]) -> (r: Output)
             ensures r.v@ == keccak(b@), r.v@.len() == 32;
+        fn new() -> (r: Self);
+        fn chain_update(self, data: &[u8]) -> (r: Self);
     }
     impl Digest for Keccak256 {
         #[verifier::external_body]
         fn digest(b: &[u8]) -> (r: Output) { unimplemented!() }
+        #[verifier::external_body]
+        fn new() -> (r: Self)
+            ensures r.data@ == Seq::<u8>::empty(),
+        { unimplemented!() }
+        #[verifier::external_body]
+        fn chain_update(self, data: &[u8]) -> (r: Self)
+            ensures r.data@ == self.data@ + data@,
+        { unimplemented!() }
     }
     impl core::ops::Deref for Output {
         type Target = [u8];
@@ -246,5 +357,5 @@ pub mod zeroize {
 }
 
 pub mod rand {
-    pub mod rngs { pub struct OsRng {} }
+    pub mod rngs { pub struct OsRng; }
 }
